@@ -1,6 +1,8 @@
 """C11 — accepted layouts are naturally aligned with only explicit padding (model M6)."""
 from __future__ import annotations
 
+import multiprocessing as mp
+import os
 from typing import Any, Dict, List
 
 from .. import common as C
@@ -13,17 +15,33 @@ LEVEL = "proof"
 MATCHERS: Dict[str, Any] = {}
 
 
+def _work(chunk):
+    C.use_repo()
+    out = []
+    for cid, ap, spec in chunk:
+        blk, _b = L.run_case(cid, ap, spec)
+        out.append((cid, ap, spec, blk))
+    return out
+
+
 def _feed(res: C.Result, cases: List[Any], builts: Dict[str, Any]):
     lines: List[str] = []
     meta: Dict[str, Any] = {}
-    for cid, ap, spec in cases:
-        blk, b = L.run_case(cid, ap, spec)
+    nproc = min(16, os.cpu_count() or 4)
+    if len(cases) > 2000:
+        step = max(200, len(cases) // (nproc * 8))
+        chunks = [cases[i:i + step] for i in range(0, len(cases), step)]
+        with mp.get_context("fork").Pool(nproc) as pool:
+            done = [x for part in pool.map(_work, chunks) for x in part]
+    else:
+        done = _work(cases)
+    for cid, ap, spec, blk in done:
         if blk is None:
             continue
         lines += blk
         meta[cid] = (ap, spec, blk)
-        if b is not None and blk[2].startswith("OBS ok"):
-            builts[cid] = b
+        if blk[2].startswith("OBS ok"):
+            builts[cid] = (ap, spec)        # rebuilt on demand for the gcc probe
     out = C.parse_driver(C.run_driver("layout", lines))
     for cid, (ap, spec, blk) in meta.items():
         r = out.get(cid)
@@ -113,7 +131,11 @@ def run(res: C.Result, deep: bool):
     # gcc as the C compiler of the property statement, on a sample of accepted structs
     keys = sorted(builts)
     rng.shuffle(keys)
-    probe = [builts[k] for k in keys[: (1500 if deep else 150)] if len(builts[k].sdf.fields) > 0]
+    probe = []
+    for k in keys[: (1500 if deep else 150)]:
+        _blk, b = L.run_case(k, *builts[k])
+        if b is not None and len(b.sdf.fields) > 0:
+            probe.append(b)
     bad = L.gcc_probe(probe)
     res.extra["gcc_probed"] = len(probe)
     for name, got, want in bad:
